@@ -535,3 +535,6 @@ def run(ctx: Check, tree: Tree) -> None:
     from .c04 import check_normalised
 
     ctx.section(check_normalised, ctx, tree)
+    from .c04 import check_topology_helpers
+
+    ctx.section(check_topology_helpers, ctx, tree)
